@@ -201,6 +201,11 @@ NORMALIZE = SA.normalize
 
 
 def body_wrapup(I, case):
+    _prove = I.prove
+
+    def prove(label, cond, **kw):
+        kw.setdefault('side', True)   # the radius is a sqrt symbol: counterexamples must respect its definition
+        return _prove(label, cond, **kw)
     W, H = I.real('W', 10, 100), I.real('H', 10, 100)
     areas = [I.real(f'a{i}', 0.01, 9) for i in range(3)]
     hx, hy = I.real('hx', 0, 100), I.real('hy', 0, 100)
@@ -213,7 +218,9 @@ def body_wrapup(I, case):
         hard_rects.append([hx, hy + 1.0, 1.0, 1.0])
     mods['HM'] = {'hard': True, 'rectangles': hard_rects}
     mods['FX'] = {'fixed': True, 'rectangles': [[fx, fy, 1.0, 2.0]]}
-    tree = {'Modules': mods, 'Nets': [['S0', 'S1', 'HM'], ['S2', 'FX', 2.0], ['S1', 'S2']]}
+    tx, ty = I.real('tx', 0, 9), I.real('ty', 0, 9)
+    mods['PIN'] = {'terminal': True, 'fixed': True, 'center': [tx, ty]}   # a fixed I/O pin
+    tree = {'Modules': mods, 'Nets': [['S0', 'S1', 'HM'], ['S2', 'FX', 2.0], ['S1', 'S2'], ['PIN', 'S0']]}
     net = SP.Spectral(tree)
     names = [m.name for m in net.modules]
     before = {m.name: dict(area=m.area(), rects=[(r.center.x, r.center.y, r.shape.w, r.shape.h) for r in m.rectangles],
@@ -243,19 +250,21 @@ def body_wrapup(I, case):
     finally:
         SP.spectral_layout_die = saved
     I.reached('wrapup')
-    I.prove('number-of-trials', len(calls) == max(1, case['trials']))
+    prove('number-of-trials', len(calls) == max(1, case['trials']))
     import math
     for m in net.modules:
         b = before[m.name]
-        I.prove('areas-unchanged', Eq(m.area(), b['area']))
+        prove('areas-unchanged', Eq(m.area(), b['area']))
         if m.is_fixed:
-            I.prove('fixed-module-untouched', And(*[And(Eq(r.center.x, q[0]), Eq(r.center.y, q[1]), Eq(r.shape.w, q[2]), Eq(r.shape.h, q[3]))
+            prove('fixed-module-untouched', And(*[And(Eq(r.center.x, q[0]), Eq(r.center.y, q[1]), Eq(r.shape.w, q[2]), Eq(r.shape.h, q[3]))
                                                     for r, q in zip(m.rectangles, b['rects'])]))
+            if m.is_terminal:  # a fixed pin keeps its place
+                prove('fixed-terminal-stays', m.center is not None and And(Eq(m.center.x, b['center'][0]), Eq(m.center.y, b['center'][1])))
             continue
         if m.is_hard:
             # rigid translation: shapes and pairwise offsets unchanged; position = centroid of the rectangles
             r0, q0 = m.rectangles[0], b['rects'][0]
-            I.prove('hard-module-moved-rigidly', And(*[And(Eq(r.shape.w, q[2]), Eq(r.shape.h, q[3]), Eq(r.center.x - r0.center.x, q[0] - q0[0]),
+            prove('hard-module-moved-rigidly', And(*[And(Eq(r.shape.w, q[2]), Eq(r.shape.h, q[3]), Eq(r.center.x - r0.center.x, q[0] - q0[0]),
                                                            Eq(r.center.y - r0.center.y, q[1] - q0[1])) for r, q in zip(m.rectangles, b['rects'])]))
             ta = sum(r.area for r in m.rectangles)
             cx = sum(r.center.x * r.area for r in m.rectangles) / ta
@@ -263,8 +272,8 @@ def body_wrapup(I, case):
         else:
             cx, cy = m.center.x, m.center.y
         rad = symx.sym_sqrt(b['area'] / SP.math.pi) if I.mode == 'symbolic' else math.sqrt(b['area'] / math.pi)
-        I.prove('movable-disc-inside-die', And(cx - rad >= 0, cx + rad <= W, cy - rad >= 0, cy + rad <= H) if I.mode == 'symbolic'
+        prove('movable-disc-inside-die', And(cx - rad >= 0, cx + rad <= W, cy - rad >= 0, cy + rad <= H) if I.mode == 'symbolic'
                 else (cx - rad >= -1e-9 and cx + rad <= W + 1e-9 and cy - rad >= -1e-9 and cy + rad <= H + 1e-9), side=True)
-    I.prove('nets-unchanged', [([m.name for m in e.modules], e.weight) == nb for e, nb in zip(net.edges, nets_before)] ==
+    prove('nets-unchanged', [([m.name for m in e.modules], e.weight) == nb for e, nb in zip(net.edges, nets_before)] ==
             [True] * len(nets_before) and len(net.edges) == len(nets_before))
-    I.prove('modules-unchanged', [m.name for m in net.modules] == names)
+    prove('modules-unchanged', [m.name for m in net.modules] == names)
